@@ -83,21 +83,22 @@ var lcReasons = map[string][]string{
 var lcCauses = []string{"closePacket", "drop", "overlap", "wrongHeartbeat", "garbage", "silence", "appClose", "appCloseNow", "appCloseNoPoll", "appCloseNoPoll"}
 
 type lcSess struct {
-	idx          int
-	car          string
-	rev          int
-	pc           *PollClient
-	wc           *WSClient
-	tc           *WTClient
-	sr           *SessRec
-	sid          string
-	causes       []string // injected so far
-	silent       bool     // stopped answering pings
-	noPoll       bool     // polling client that never polls again
-	answered     int
-	closeEvIdx   int // index in sr.Events of the close event, -1
-	cbAfterClose int
-	wireAtClose  int
+	idx               int
+	car               string
+	rev               int
+	pc                *PollClient
+	wc                *WSClient
+	tc                *WTClient
+	sr                *SessRec
+	sid               string
+	causes            []string // injected so far
+	silent            bool     // stopped answering pings
+	noPoll            bool     // polling client that never polls again
+	answered          int
+	closeEvIdx        int // index in sr.Events of the close event, -1
+	eventsAtCloseStep int // number of events recorded by the end of the step in which the close was observed
+	cbAfterClose      int
+	wireAtClose       int
 }
 
 type lcWorld struct {
@@ -325,14 +326,18 @@ func (lw *lcWorld) causeFn(s *lcSess, cause string) func() {
 	case "drop":
 		switch {
 		case s.pc != nil:
+			// (prepared by the caller: a poll is pending; closures never call Settle, they may run in their own goroutine)
+			if s.pc.Poll == nil {
+				s.pc.StartPoll()
+				Settle()
+				s.pc.Pump()
+				if s.pc.Poll == nil {
+					return nil
+				}
+			}
 			return func() {
-				if s.pc.Poll != nil {
-					s.pc.Poll.Abort()
-					s.pc.Poll = nil
-				} else {
-					e := s.pc.StartPoll()
-					Settle()
-					e.Abort()
+				if p := s.pc.Poll; p != nil {
+					p.Abort()
 					s.pc.Poll = nil
 				}
 			}
@@ -377,15 +382,15 @@ func (lw *lcWorld) causeFn(s *lcSess, cause string) func() {
 		if s.pc == nil {
 			return nil
 		}
+		s.noPoll, s.silent = true, true
+		if s.pc.Poll != nil {
+			// use up the pending poll (done here, by the caller's goroutine)
+			lw.w.AppSend(s.sr, msgT("answer the pending poll"), nil, false, 0)
+			Settle()
+			s.pc.Pump()
+		}
 		return func() {
 			lw.stats["close-with-buffered-data-and-no-further-poll"] = true
-			s.noPoll, s.silent = true, true
-			if s.pc.Poll != nil {
-				// use up the pending poll
-				lw.w.AppSend(s.sr, msgT("answer the pending poll"), nil, false, 0)
-				Settle()
-				s.pc.Pump()
-			}
 			if len(s.sr.Events)%2 == 0 {
 				lw.w.AppSend(s.sr, msgT("buffered 1"), nil, true, 0)
 				lw.w.AppSend(s.sr, msgT("buffered 2"), nil, false, 0)
@@ -491,9 +496,19 @@ func (lw *lcWorld) checkAll(where string) {
 			if sr.Sock.ReadyState() != "closed" {
 				lw.f03("%s: session #%d emitted close but its ready state is %q", where, i, sr.Sock.ReadyState())
 			}
-			for _, e := range sr.Events[closeIdx+1:] {
-				lw.f03("%s: session #%d: event %v after the close event", where, i, e)
-				break
+			if s.eventsAtCloseStep == 0 {
+				// events of actions that ran concurrently with the close (same step, same instant) are not "afterwards"
+				s.eventsAtCloseStep = len(sr.Events)
+			}
+			if len(sr.Events) > s.eventsAtCloseStep {
+				lw.f03("%s: session #%d: event %v after the close event", where, i, sr.Events[s.eventsAtCloseStep])
+			}
+			for _, e := range sr.Events[closeIdx+1 : s.eventsAtCloseStep] {
+				if e.At != sr.CloseAt {
+					lw.f03("%s: session #%d: event %v after the close event (at a later instant)", where, i, e)
+					break
+				}
+				lw.stats["event-concurrent-with-close"] = true
 			}
 		}
 	}
@@ -734,9 +749,16 @@ func runLC(steps []lcStep) (*lcWorld, bubbleResult) {
 				if s == nil || len(s.sr.Closes) > 0 {
 					break
 				}
-				f1, f2 := lw.causeFn(s, st.Cause), lw.causeFn(s, st.Cause2)
-				if f1 == nil || st.Cause == "overlap" || st.Cause == "appCloseNoPoll" || st.Cause2 == "appCloseNoPoll" {
+				if st.Cause == "overlap" || st.Cause == "appCloseNoPoll" || st.Cause2 == "appCloseNoPoll" {
 					break
+				}
+				f1 := lw.causeFn(s, st.Cause)
+				if f1 == nil {
+					break
+				}
+				var f2 func()
+				if st.Cause2 != "overlap" {
+					f2 = lw.causeFn(s, st.Cause2)
 				}
 				if f2 == nil || st.Cause2 == "overlap" {
 					// instead of a second cause: lookups of unknown session ids racing with the close's bookkeeping
